@@ -343,6 +343,9 @@ struct Msg {
     crl_tu: i64,
     crl_nu: i64,
     crl_rev: Rev,
+    /// revocationDate of the entry that lists the EE certificate, relative to thisUpdate
+    /// (a listed certificate is revoked whatever the date says)
+    crl_rev_when: i64,
     crl_aki: Aki,
     crl_number: bool,
     crl_general_time: bool,
@@ -384,6 +387,7 @@ impl Msg {
             crl_tu: T0 - 300,
             crl_nu: T0 + 300,
             crl_rev: Rev::Absent,
+            crl_rev_when: -10,
             crl_aki: Aki::Issuer,
             crl_number: true,
             crl_general_time: false,
@@ -450,7 +454,17 @@ impl Msg {
                 Rev::Absent => "absent".to_string(),
                 Rev::Empty => "empty".to_string(),
                 Rev::Others(n) => format!("others{}", if *n > 1 { "N" } else { "1" }),
-                Rev::ListsEe { n, pos, with_ext } => format!("ee@{}{}", if *pos == 0 { "first" } else if pos + 1 == *n { "last" } else { "middle" }, if *with_ext { "+ext" } else { "" }),
+                Rev::ListsEe { n, pos, with_ext } => format!(
+                    "ee@{}{}{}",
+                    if *pos == 0 { "first" } else if pos + 1 == *n { "last" } else { "middle" },
+                    if *with_ext { "+ext" } else { "" },
+                    match self.crl_rev_when {
+                        w if w < 0 => "",
+                        0 => ",revoked-at-thisUpdate",
+                        w if w <= 700 => ",revocation-date-after-thisUpdate",
+                        _ => ",revocation-date-far-in-the-future",
+                    }
+                ),
             },
             self.crl_number
         )
@@ -502,7 +516,7 @@ fn build(pool: &PoolSigner, m: &Msg) -> BuiltMsg {
         Rev::Others(n) => Some((0..*n).map(|k| Revoked { serial: other_serial(k), when: m.crl_tu - 10, with_ext: k % 2 == 1 }).collect()),
         Rev::ListsEe { n, pos, with_ext } => Some(
             (0..*n)
-                .map(|k| if k == *pos { Revoked { serial: m.ee_serial.clone(), when: m.crl_tu - 10, with_ext: *with_ext } } else { Revoked { serial: other_serial(k), when: m.crl_tu - 10, with_ext: false } })
+                .map(|k| if k == *pos { Revoked { serial: m.ee_serial.clone(), when: m.crl_tu + m.crl_rev_when, with_ext: *with_ext } } else { Revoked { serial: other_serial(k), when: m.crl_tu - 10, with_ext: false } })
                 .collect(),
         ),
     };
@@ -595,7 +609,7 @@ fn msg_json(m: &Msg, b: &BuiltMsg) -> Value {
         "label": m.label,
         "issuer_key": m.issuer,
         "ee": {"key": m.ee_key, "serial": hex(&m.ee_serial), "not_before": m.ee_nb, "not_after": m.ee_na, "aki": format!("{:?}", m.ee_aki), "basic_constraints": format!("{:?}", m.ee_bc), "key_usage": m.ee_key_usage, "signed_by": m.ee_signer},
-        "crl": {"this_update": m.crl_tu, "next_update": m.crl_nu, "revoked": format!("{:?}", m.crl_rev), "aki": format!("{:?}", m.crl_aki), "crl_number": m.crl_number, "generalized_time": m.crl_general_time, "signed_by": m.crl_signer},
+        "crl": {"this_update": m.crl_tu, "next_update": m.crl_nu, "revoked": format!("{:?}", m.crl_rev), "revocation_date_of_ee_entry_relative_to_this_update": m.crl_rev_when, "aki": format!("{:?}", m.crl_aki), "crl_number": m.crl_number, "generalized_time": m.crl_general_time, "signed_by": m.crl_signer},
         "signed_attrs_len": b.attrs_len,
         "signed_attrs_in_der_order": b.sorted,
         "signed_der_sorted_instead_of_emitted": m.sign_der,
@@ -868,6 +882,12 @@ fn round_msgs(rng: &mut Rng, round: u64) -> Vec<Msg> {
                 let mut m = next(rng, ENTRIES[k % 4], "ee-revoked");
                 m.crl_rev = Rev::ListsEe { n, pos, with_ext };
                 m.crl_aki = if k % 2 == 0 { Aki::Issuer } else { Aki::Absent };
+                out.push(m.clone());
+                // the same entry with a revocation date at / after thisUpdate, after every instant the
+                // message is evaluated at, beyond nextUpdate, decades ahead (GeneralizedTime)
+                let w = [0i64, 1, 299, 301, 601, 86_400 * 400, 86_400 * 365 * 40][k % 7];
+                m.crl_rev_when = w;
+                m.label = "ee-revoked-later".into();
                 out.push(m);
             }
         }
